@@ -43,7 +43,8 @@ PARTIAL = [
     "TypeError of db/dbm on non-numeric input is checked by the oracle only",
     "astype(int) of a parsed float beyond the int64 range is undefined in numpy (model: excluded point `Other`, not compared)",
     "Q: scipy's erfc is assumed to be the Gaussian tail (QSpec); the oracle checks symmetry/monotonicity/Q(0) numerically",
-    "theorems over R say nothing about floating-point rounding; the float clauses are checked at 1e-9*scale+1e-12",
+    "theorems over R say nothing about floating-point rounding; float clauses are checked at 1e-9*scale (+1e-12 only for the O(1) "
+    "quantities formed by cancellation: dB values and rcos; idb/idbm/gaus/Q are purely relative)",
 ]
 ASSUMPTIONS = [
     "a Python float stands for the decimal value of its shortest repr in the si model (same convention as the translated literals), "
@@ -62,7 +63,9 @@ WS_ALL = [9, 10, 11, 12, 13, 28, 29, 30, 31, 32, 0x85, 0xA0, 0x1680, 0x2000, 0x2
 DT = {"none": None, "bool": bool, "int": int, "float": float, "complex": complex}
 
 
-def close(a, b, scale=None):
+def close(a, b, scale=None, floor=TOL_ABS):
+    """|a-b| <= 1e-9*scale + floor.  `floor=0` (purely relative) for quantities that span decades (idb, idbm, gaus, Q);
+    the absolute floor is kept only where the value is an O(1) quantity formed by cancellation (dB values, rcos)."""
     if isinstance(a, complex) or isinstance(b, complex):
         return close(complex(a).real, complex(b).real) and close(complex(a).imag, complex(b).imag)
     if math.isnan(a) or math.isnan(b):
@@ -70,7 +73,7 @@ def close(a, b, scale=None):
     if math.isinf(a) or math.isinf(b):
         return a == b
     s = max(abs(a), abs(b)) if scale is None else scale
-    return abs(a - b) <= TOL_REL * s + TOL_ABS
+    return abs(a - b) <= TOL_REL * s + floor
 
 
 def dec_frac(x):
@@ -486,11 +489,11 @@ def _mfloat(rep):
     return u2f(int(t[1]))
 
 
-def _cmp_floats(name, reps, vals):
+def _cmp_floats(name, reps, vals, floor=TOL_ABS):
     out = []
     for i, (rep, v) in enumerate(zip(reps, vals)):
         m = _mfloat(rep)
-        if m is None or not close(m, v):
+        if m is None or not close(m, v, floor=floor):
             out.append(f"{name}[{i}]: model {rep if m is None else m!r}, implementation {v!r}")
     if len(reps) != len(vals):
         out.append(f"{name}: {len(reps)} model values, {len(vals)} implementation values")
@@ -538,7 +541,7 @@ def compare(case, res, reqs, replies):
             bad.append(f"prefix: model {pfx!r}, implementation {p[1]!r}")
         try:
             printed = Fraction(Decimal(p[0]))
-            if abs(printed - m) > Fraction(1, 2) * Fraction(10) ** (-case["k"]) + abs(m) * Fraction(1, 10 ** 15):
+            if not abs(printed - m) <= Fraction(1, 2) * Fraction(10) ** (-case["k"]) + abs(m) * Fraction(1, 10 ** 15):
                 bad.append(f"mantissa: model {float(m)!r} (unrounded), implementation printed {p[0]!r} with k={case['k']}")
             dec = p[0].split(".")[1] if "." in p[0] else ""
             if len(dec) != case["k"]:
@@ -576,12 +579,12 @@ def compare(case, res, reqs, replies):
         m_db = [replies[2 * i] for i in range(n)]
         m_dbm = [replies[2 * i + 1] for i in range(n)]
         return (_cmp_floats("db", m_db, res["db"]) + _cmp_floats("dbm", m_dbm, res["dbm"])
-                + _cmp_floats("idb(db)", replies[2 * n:3 * n], res["idb_db"])
-                + _cmp_floats("idbm(dbm)", replies[3 * n:4 * n], res["idbm_dbm"]))
+                + _cmp_floats("idb(db)", replies[2 * n:3 * n], res["idb_db"], 0.0)
+                + _cmp_floats("idbm(dbm)", replies[3 * n:4 * n], res["idbm_dbm"], 0.0))
     if k == "idb":
         n = len(case["y"])
-        return (_cmp_floats("idb", [replies[2 * i] for i in range(n)], res["idb"])
-                + _cmp_floats("idbm", [replies[2 * i + 1] for i in range(n)], res["idbm"]))
+        return (_cmp_floats("idb", [replies[2 * i] for i in range(n)], res["idb"], 0.0)
+                + _cmp_floats("idbm", [replies[2 * i + 1] for i in range(n)], res["idbm"], 0.0))
     if k == "dbneg":
         n = len(case["x"])
         bad = []
@@ -597,11 +600,11 @@ def compare(case, res, reqs, replies):
             arg, val = u2f(int(t[1])), u2f(int(t[2]))
             if not close(arg, res["erfc_arg"][i]):
                 bad.append(f"erfc argument[{i}]: model {arg!r}, implementation {res['erfc_arg'][i]!r}")
-            if not close(val, res["q"][i]):
+            if not close(val, res["q"][i], floor=0.0):
                 bad.append(f"Q[{i}]: model {val!r}, implementation {res['q'][i]!r}")
         return bad
     if k == "gaus":
-        return _cmp_floats("gaus", replies, res["g"])
+        return _cmp_floats("gaus", replies, res["g"], 0.0)
     if k == "rcos":
         return _cmp_floats("rcos", replies, res["r"])
     return []
@@ -681,7 +684,7 @@ def oracle(case, res):
         exact_x = Fraction(x) if not isinstance(x, int) else Fraction(x)
         half_unit = Fraction(1, 2) * Fraction(10) ** (-case["k"])
         # printed mantissa * 10^p gives back x to the printed precision (float product x*S adds a few ulps)
-        if abs(printed * scale - exact_x) > (half_unit + abs(printed) * Fraction(1, 10 ** 14)) * scale:
+        if not abs(printed * scale - exact_x) <= (half_unit + abs(printed) * Fraction(1, 10 ** 14)) * scale:
             v.append(("C19:si:value", f"si({x!r},k={case['k']}) = {res['out']!r}: {p[0]}e{pw} is not x to the printed precision"))
         m = xf / scale
         if xf < 10 ** 15 and not (1 <= m < 1000):
@@ -735,13 +738,16 @@ def oracle(case, res):
             if x <= 0:
                 continue
             d, dm = res["db"][i], res["dbm"][i]
+            if not (math.isfinite(d) and math.isfinite(dm)):
+                v.append(("C19:db:non-finite", f"db({x!r}) = {d!r}, dbm({x!r}) = {dm!r} for a positive finite x"))
+                continue
             if not close(d, 10 * math.log10(x), max(1.0, abs(d))):
                 v.append(("C19:db:value", f"db({x!r}) = {d!r}"))
             if not close(dm, d + 30, max(30.0, abs(d))):
                 v.append(("C19:dbm=db+30", f"dbm({x!r}) = {dm!r}, db+30 = {d + 30!r}"))
-            if math.isfinite(d) and not close(res["idb_db"][i], x, abs(x)):
+            if math.isfinite(d) and not close(res["idb_db"][i], x, abs(x), 0.0):
                 v.append(("C19:idb(db)", f"idb(db({x!r})) = {res['idb_db'][i]!r}"))
-            if math.isfinite(dm) and not close(res["idbm_dbm"][i], x, abs(x)):
+            if math.isfinite(dm) and not close(res["idbm_dbm"][i], x, abs(x), 0.0):
                 v.append(("C19:idbm(dbm)", f"idbm(dbm({x!r})) = {res['idbm_dbm'][i]!r}"))
             y = case["y"][i]
             xy = res["xy"][i]
@@ -754,9 +760,12 @@ def oracle(case, res):
         if res["status"] != "ok":
             return [("C19:idb:accept", f"idb/idbm({case['y']!r}) failed: {res}")]
         for i, y in enumerate(case["y"]):
-            if not close(res["idb"][i], 10 ** (y / 10), abs(res["idb"][i])):
+            if math.isnan(res["idb"][i]) or math.isnan(res["idbm"][i]):
+                v.append(("C19:idb:nan", f"idb({y!r}) = {res['idb'][i]!r}, idbm({y!r}) = {res['idbm'][i]!r}"))
+                continue
+            if not close(res["idb"][i], 10 ** (y / 10), abs(10 ** (y / 10)), 0.0):
                 v.append(("C19:idb:value", f"idb({y!r}) = {res['idb'][i]!r}"))
-            if not close(res["idbm"][i], 10 ** (y / 10 - 3), abs(res["idbm"][i])):
+            if not close(res["idbm"][i], 10 ** (y / 10 - 3), abs(10 ** (y / 10 - 3)), 0.0):
                 v.append(("C19:idbm:value", f"idbm({y!r}) = {res['idbm'][i]!r}"))
             if 0 < res["idb"][i] < math.inf and not close(res["db_idb"][i], y, max(1.0, abs(y))):
                 v.append(("C19:db(idb)", f"db(idb({y!r})) = {res['db_idb'][i]!r}"))
@@ -780,14 +789,14 @@ def oracle(case, res):
             return [("C19:Q:accept", f"Q({case['x']!r}) failed: {res}")]
         xs, q, qn = case["x"], res["q"], res["qneg"]
         for i, x in enumerate(xs):
-            if abs(q[i] + qn[i] - 1) > 1e-12:
+            if not abs(q[i] + qn[i] - 1) <= 1e-12:
                 v.append(("C19:Q:symmetry", f"Q({x!r})+Q({-x!r}) = {q[i] + qn[i]!r}"))
-            if x == 0 and q[i] != 0.5:
+            if x == 0 and not q[i] == 0.5:
                 v.append(("C19:Q:zero", f"Q(0) = {q[i]!r}"))
             if not (0 <= q[i] <= 1):
                 v.append(("C19:Q:range", f"Q({x!r}) = {q[i]!r}"))
             ref = 0.5 * math.erfc(x / math.sqrt(2.0))
-            if not close(q[i], ref):
+            if not close(q[i], ref, floor=1e-300):
                 v.append(("C19:Q:value", f"Q({x!r}) = {q[i]!r}, 0.5*erfc(x/sqrt2) = {ref!r}"))
         order = sorted(range(len(xs)), key=lambda i: xs[i])
         for a, b in zip(order, order[1:]):
@@ -799,13 +808,13 @@ def oracle(case, res):
     if k == "gaus":
         if res["status"] != "ok":
             return [("C19:gaus:accept", f"gaus failed: {res}")]
-        if abs(res["integral"] - 1) > 1e-9:
+        if not abs(res["integral"] - 1) <= 1e-9:
             v.append(("C19:gaus:integral", f"integral of gaus(mu={case['mu']},std={case['std']}) = {res['integral']!r}"))
         mu = 0.0 if case["mu"] is None else case["mu"]
         sd = 1.0 if case["std"] is None else case["std"]
         for x, g in zip(case["x"], res["g"]):
             ref = math.exp(-0.5 * ((x - mu) / sd) ** 2) / (sd * math.sqrt(2 * math.pi))
-            if not close(g, ref):
+            if not close(g, ref, floor=1e-300):
                 v.append(("C19:gaus:value", f"gaus({x!r},{mu!r},{sd!r}) = {g!r}, reference {ref!r}"))
         return v
     if k == "rcos":
@@ -830,11 +839,11 @@ def oracle(case, res):
                 v.append(("C19:rcos:range", f"rcos({x!r},{al},{T}) = {r[i]!r}"))
             if r[i] != rn[i]:
                 v.append(("C19:rcos:even", f"rcos({x!r}) = {r[i]!r}, rcos({-x!r}) = {rn[i]!r}"))
-            if al > 0 and abs(x) == 1 / (2 * T) and abs(r[i] - 0.5) > 1e-9:
+            if al > 0 and abs(x) == 1 / (2 * T) and not abs(r[i] - 0.5) <= 1e-9:
                 v.append(("C19:rcos:half", f"rcos(1/(2T)={x!r},{al},{T}) = {r[i]!r}"))
-            if al >= 0 and abs(Fraction(x)) > hi * (1 + Fraction(1, 10 ** 9)) and r[i] != 0:
+            if al >= 0 and abs(Fraction(x)) > hi * (1 + Fraction(1, 10 ** 9)) and not r[i] == 0:
                 v.append(("C19:rcos:zero-beyond", f"rcos({x!r},{al},{T}) = {r[i]!r} beyond (1+alpha)/(2T)"))
-            if x == 0 and al < 1 and r[i] != 1:
+            if x == 0 and al < 1 and not r[i] == 1:
                 v.append(("C19:rcos:centre", f"rcos(0,{al},{T}) = {r[i]!r}"))
         return v
     return v
